@@ -69,7 +69,7 @@ def _imports():
         return
     global C01, T, JaqalError, JaqalParseError, JaqalLexer, parse_jaqal_string, parse_jaqal_string_header, run_jaqal_circuit
     global run_jaqal_string, parse_jaqal_output_list, expand_macros, expand_subcircuits, fill_in_let, TraceSerializer
-    global GATES, SIG, dump, NATIVES_JSON, NamedQubit, LoopStatement, BlockStatement, GateStatement, UnitarySerializedEmulator
+    global GATES, SIG, dump, NATIVES_JSON, GATES_REG, NATIVES_REG_JSON, Register, NamedQubit, LoopStatement, BlockStatement, GateStatement, UnitarySerializedEmulator
     os.environ["JAQALPAQ_RUN_EMULATOR"] = "1"
     try:
         import harness  # noqa
@@ -85,11 +85,21 @@ def _imports():
     from jaqalpaq.core.result import parse_jaqal_output_list
     from jaqalpaq.core.algorithm import expand_macros, expand_subcircuits, fill_in_let
     from jaqalpaq.core.algorithm.walkers import TraceSerializer
-    from jaqalpaq.core import NamedQubit, LoopStatement, BlockStatement, GateStatement
+    from jaqalpaq.core import NamedQubit, Register, LoopStatement, BlockStatement, GateStatement
     from jaqalpaq.emulator.unitary import UnitarySerializedEmulator
     from harness.gates import GATES, SIG
     from harness import dump
     NATIVES_JSON = [dump.gatedef(g) for g in GATES.values()]
+    # the same gate set plus gates that take a whole register (with and without a unitary) and an untyped parameter
+    import numpy as np
+    from jaqalpaq.core import GateDefinition, Parameter, ParamType
+    GATES_REG = dict(GATES)
+    GATES_REG["RG"] = GateDefinition("RG", [Parameter("r", ParamType.REGISTER)], ideal_unitary=lambda: np.eye(128, dtype=complex))
+    GATES_REG["RGK"] = GateDefinition("RGK", [Parameter("k", ParamType.INT), Parameter("r", ParamType.REGISTER), Parameter("q", ParamType.QUBIT)],
+                                      ideal_unitary=lambda k: np.eye(128, dtype=complex))
+    GATES_REG["RN"] = GateDefinition("RN", [Parameter("r", ParamType.REGISTER)])
+    GATES_REG["UT"] = GateDefinition("UT", [Parameter("x", None)], ideal_unitary=lambda *a: np.eye(128, dtype=complex))
+    NATIVES_REG_JSON = [dump.gatedef(g) for g in GATES_REG.values()]
     warnings.simplefilter("ignore")
     _loaded = True
 
@@ -228,7 +238,9 @@ class Watch:
 # ------------------------------------------------------------------------------------------------ the pipeline under test
 
 def parse(text, gs, **kw):
-    return parse_jaqal_string(text, inject_pulses=GATES if gs else None, autoload_pulses=False, **kw)
+    """gs: True = harness gate set, "reg" = that set plus register-taking gates, False = no gate set"""
+    inject = GATES_REG if gs == "reg" else GATES if gs else None
+    return parse_jaqal_string(text, inject_pulses=inject, autoload_pulses=False, **kw)
 
 
 def ov_dict(ov):
@@ -249,6 +261,8 @@ def run_circuit(c, ov):
 def arg_token(v):
     if isinstance(v, NamedQubit):
         return "q" + str(v.resolve_qubit()[1])
+    if isinstance(v, Register):
+        return "r" + ",".join(str(v.resolve_qubit(i)[1]) for i in range(len(v)))
     if isinstance(v, bool):
         return "?bool"
     if isinstance(v, int):
@@ -337,6 +351,15 @@ def impl_well_formed(text, gs, ov):
 
 
 def ftok(t):
+    """numeric argument tokens are compared as doubles: a float literal of more than 15 digits, and an integral float of 2^53
+    or more that `as_integer` turns into an int (the real code goes through the binary double, the model keeps the decimal
+    value - the subject of C01, not of this property)"""
+    if t.startswith("i"):
+        try:
+            k = int(t[1:])
+        except ValueError:
+            return t
+        return ("I", float(k)) if abs(k) >= 2 ** 53 else t
     if t.startswith("f") and t.count(":") == 2:
         neg, mant, exp = t[1:].split(":")
         try:
@@ -391,7 +414,7 @@ def safe_driver(driver, reqs):
 
 
 def model_req(text, gs, ov):
-    return {"op": "run_model", "text": text, "natives": NATIVES_JSON if gs else None,
+    return {"op": "run_model", "text": text, "natives": NATIVES_REG_JSON if gs == "reg" else NATIVES_JSON if gs else None,
             "override": [[k, num_json(v)] for k, v in (ov or [])]}
 
 
@@ -645,6 +668,73 @@ EDGE_TEXTS = [
 ]
 
 
+REG_TEXTS = [
+    "register q[3]\nprepare_all\nRG q\nmeasure_all\n",
+    "register q[3]\nmap a q[2:0:-1]\nprepare_all\nRG a\nRGK 2 a q[0]\nmeasure_all\n",
+    "let n 2\nregister q[n]\nmap a q\nmap b a[1:n]\nprepare_all\nRG b\nRN a\nmeasure_all\n",
+    "register q[3]\nmacro m r k { RGK k r q[0]; RG r }\nmap a q[0:3:2]\nprepare_all\nm a 1\nm q 2\nmeasure_all\n",
+    "register q[3]\nprepare_all\nRG q[0]\nmeasure_all\n",
+    "register q[3]\nprepare_all\nRGK 1 q q\nmeasure_all\n",
+    "register q[3]\nprepare_all\nRGK q 1 q[0]\nmeasure_all\n",
+    "register q[3]\nprepare_all\nRG 1\nmeasure_all\n",
+    "register q[3]\nprepare_all\nUT q[0]\nmeasure_all\n",
+    "register q[3]\nprepare_all\nUT 1\nmeasure_all\n",
+    "register q[3]\nprepare_all\nUT q\nmeasure_all\n",
+    "register q[3]\nprepare_all\n< RG q | X q[0] >\nmeasure_all\n",
+    "register q[4]\nmap a q[0:2]\nmap b q[2:4]\nprepare_all\n< RG a | RG b >\nmeasure_all\n",
+    "register q[2]\nmap a q[0:0]\nprepare_all\nRG a\nmeasure_all\n",
+]
+
+
+def reg_program(r):
+    n = r.randrange(1, 6)
+    lines = []
+    sized_by_let = r.random() < 0.4
+    if sized_by_let:
+        lines.append(f"let n {n}")
+    lines.append(f"register q[{'n' if sized_by_let else n}]")
+    regs = {"q": list(range(n))}
+    for k in range(r.randrange(0, 4)):
+        src = r.choice(list(regs))
+        qs = regs[src]
+        if not qs:
+            continue
+        a = r.randrange(len(qs))
+        b = r.randrange(a, len(qs) + 1)
+        st = r.choice([1, 1, 2])
+        name = f"a{k}"
+        if r.random() < 0.25:
+            lines.append(f"map {name} {src}")
+            regs[name] = list(qs)
+        elif r.random() < 0.3 and a > 0:
+            lines.append(f"map {name} {src}[{a}:{r.choice([-1, 0]) if False else max(a - 2, 0)}:-1]")
+            regs[name] = qs[a:max(a - 2, 0):-1]
+        else:
+            lines.append(f"map {name} {src}[{a}:{b}:{st}]")
+            regs[name] = qs[a:b:st]
+    with_macro = r.random() < 0.5
+    if with_macro:
+        lines.append("macro m r k { RG r; loop k { RGK k r q[0] } }")
+    lines.append("prepare_all")
+    for _ in range(r.randrange(1, 5)):
+        g = r.choice(["RG", "RGK", "RN", "X", "m" if with_macro else "RG", "par"])
+        reg = r.choice(list(regs))
+        if g == "RG":
+            lines.append(f"RG {reg}")
+        elif g == "RGK":
+            lines.append(f"RGK {r.randrange(3)} {reg} q[{r.randrange(n)}]")
+        elif g == "RN":
+            lines.append(f"RN {reg}")
+        elif g == "X":
+            lines.append(f"X q[{r.randrange(n)}]")
+        elif g == "m":
+            lines.append(f"m {reg} {r.randrange(3)}")
+        else:
+            lines.append(f"< RG {reg} | RN {r.choice(list(regs))} >")
+    lines.append("measure_all")
+    return "\n".join(lines) + "\n"
+
+
 def int_literal_texts():
     out = []
     for nd in (1, 18, 19, 20, 100, 1000, 4299, 4300, 4301, 5000, 6000):
@@ -776,7 +866,7 @@ def check_call(w, call, pulse_path=None, stream="?"):
     return holder.get("out", {"err": "hang"})
 
 
-WF_STREAMS = {"runnable", "general", "runnable:no_gate_set", "general:no_gate_set", "token_damage", "edge"}
+WF_STREAMS = {"runnable", "general", "runnable:no_gate_set", "general:no_gate_set", "token_damage", "edge", "register_gate"}
 
 FLAG_COMBOS = [dict(expand_macro=a, expand_let=b, expand_let_map=c, return_usepulses=d)
                for a in (False, True) for b in (False, True) for c in (False, True) for d in (False, True)]
@@ -902,6 +992,16 @@ def run(seed: int, n: int, driver: str = DEFAULT_DRIVER, thorough: bool = False)
             ask(t, gs, [], case, stream)
         check_call(w, {"kind": "parse", "text": t, "gs": True, "flags": rng.choice(FLAG_COMBOS), "override": [["n", 1], ["x", 2.5]]}, stream=stream + ":flags")
         check_call(w, {"kind": "header", "text": t}, stream=stream + ":header")
+    # gates that take a whole register (the emulator expands it into its qubits), through aliases, lets and macros
+    for t in REG_TEXTS:
+        ask(t, "reg", [], {"kind": "run", "stream": "register_gate", "text": t, "gs": "reg", "override": []}, "register_gate")
+    for j in range(max(4, nprog // 10)):
+        r4 = random.Random(f"{seed}:c16:reg:{j}")
+        t = reg_program(r4)
+        ov = [["n", r4.choice([1, 2, 3])]] if r4.random() < 0.3 else []
+        ask(t, "reg", ov, {"kind": "run", "stream": "register_gate", "text": t, "gs": "reg", "override": ov}, "register_gate")
+        t2, how = token_damage(t, r4)
+        ask(t2, "reg", ov, {"kind": "run", "stream": "register_gate", "how": how, "text": t2, "gs": "reg", "override": ov}, "register_gate")
     # an unterminated comment at every position of a few programs
     for j in range(3):
         text, gs, ov = valid_texts[(j * 11) % len(valid_texts)]
